@@ -76,11 +76,12 @@ type Ctx struct {
 	declPkg  map[*types.Func]*packages.Package
 	fatalErr []string
 
-	noAutoExpand bool
-	autoCache    map[*ast.FuncDecl]*canonOpts
-	autoBusy     map[*ast.FuncDecl]bool
-	mergeCache   map[interface{}]*canonOpts
-	declSpans    []*ast.FuncDecl
+	noAutoExpand  bool
+	autoCache     map[*ast.FuncDecl]*canonOpts
+	autoBusy      map[*ast.FuncDecl]bool
+	mergeCache    map[interface{}]*canonOpts
+	boolInitCache map[*ast.FuncDecl]map[types.Object]ast.Expr
+	declSpans     []*ast.FuncDecl
 }
 
 func newCtx(prop, tier string) *Ctx {
